@@ -359,3 +359,99 @@ def evaluate(prog, observed_items=None):
     rt = RefRT(prog, observed_items)
     out = rt.run()
     return out, rt
+
+
+# ---------------------------------------------------------------------------
+# Driver B: round-based evaluation ("run everything runnable, then answer
+# every outstanding request at once").  Used for the maximal-batching oracle
+# of yield-only, single-batch-kind programs: flush i must carry exactly the
+# requests of round i.
+
+
+def evaluate_rounds(prog):
+    rt = RefRT(prog)
+    done = {}  # id(frame) -> outcome
+    suspended = {}  # id(frame) -> (frame, gen, req, leaves)
+    started = set()
+    pending = []
+    rounds = []
+
+    def leaf_outcome(leaf):
+        if leaf.outcome is not None:
+            return leaf.outcome
+        if leaf.kind in ("call", "shared"):
+            o = done.get(id(leaf.frame))
+            if o is not None:
+                leaf.outcome = o
+            return o
+        return None
+
+    def advance(fr, gen, send, throw):
+        try:
+            if throw is None:
+                req = gen.send(send)
+            else:
+                req = gen.throw(throw)
+        except StopIteration as s:
+            done[id(fr)] = ("val", s.value)
+            return
+        except RefResult as r:
+            done[id(fr)] = ("val", r.value)
+            return
+        except BaseException as e:
+            done[id(fr)] = ("exc", e)
+            return
+        leaves = []
+        rt._collect(req, leaves)
+        suspended[id(fr)] = (fr, gen, req, leaves)
+        for leaf in leaves:
+            if leaf.outcome is not None:
+                continue
+            if leaf.kind in ("call", "shared"):
+                if id(leaf.frame) not in started:
+                    started.add(id(leaf.frame))
+                    advance(leaf.frame, rt.gen_for(leaf.frame), None, None)
+            elif leaf.kind in ("item", "dbg"):
+                if leaf not in pending:
+                    pending.append(leaf)
+            else:
+                rt.resolve(leaf)
+
+    root = Frame(prog.get("root", 0), (), None)
+    started.add(id(root))
+    advance(root, rt.gen_for(root), None, None)
+    guard = 0
+    while id(root) not in done:
+        changed = True
+        while changed:
+            changed = False
+            for key in list(suspended):
+                fr, gen, req, leaves = suspended[key]
+                if all(leaf_outcome(l) is not None for l in leaves):
+                    del suspended[key]
+                    try:
+                        send = rt.unwrap(req)
+                        throw = None
+                    except BaseException as e:
+                        send = None
+                        throw = e
+                    advance(fr, gen, send, throw)
+                    changed = True
+        if id(root) in done:
+            break
+        if not pending:
+            raise HarnessFault("round simulator: nothing runnable and nothing pending")
+        rounds.append(frozenset(l.inst for l in pending))
+        for l in pending:
+            rt.items.append((l.kind, l.spec[1], l.spec[2], l.inst))
+            if l.kind == "dbg":
+                l.outcome = ("val", ("dbg", l.spec[1], l.spec[2], l.inst))
+            else:
+                l.outcome = rt.item_outcome(l.spec[1], l.spec[2], l.inst)
+        del pending[:]
+        guard += 1
+        if guard > 100000:
+            raise HarnessFault("round simulator runaway")
+    o = done[id(root)]
+    out = ("val", o[1]) if o[0] == "val" else ("exc", desc_of(o[1]))
+    return out, rounds, rt
